@@ -471,7 +471,7 @@ func c06NamesFile(c *Check) {
 	p := c.P
 	pk := p.Pkg(parsePkg)
 	isFileNameValue := func(v ssa.Value) bool {
-		if _, fld, _, ok := loadedField(v); ok && strings.EqualFold(fld, "filename") {
+		if _, fld, _, ok := loadedField(v); ok && fileNameFields(p)[strings.ToLower(fld)] {
 			return true
 		}
 		if prm, ok := v.(*ssa.Parameter); ok {
